@@ -39,7 +39,9 @@ def cases(tier, r):
                 ps.append({"x": "rand", "shape": list(sh), "seed": seed, "mode": mode, "wells": arg, "present": present})
         # shifting: every anchor of a few destination shapes (fitting and not fitting)
         dests = [(R, C), (R + 1, C + 2), (R + 3, C), (max(1, R - 1), C + 1), (16, 24)]
-        for B in dests if not q else dests[:4]:
+        # destinations that are smaller than the source by two or more rows / columns (never fit)
+        small = [(max(1, R - 2), C), (R, max(1, C - 3)), (max(1, R - 5), max(1, C - 2))]
+        for B in (dests if not q else dests[:4]) + [b for b in small if b[0] < R or b[1] < C]:
             if B[0] > 26:
                 continue
             anchors = _wells_of(B)
